@@ -38,14 +38,14 @@ impl Class {
 // a small pool on purpose: inputs of one world share type names, so that a cache or
 // registry keyed by name (history dependence) would collide
 const TYPE_NAMES: [&str; 5] = ["Entity", "EntityDto", "Record", "Node", "Item"];
-const COUNTERPARTS: [&str; 22] = [
-    "(i32, String)", "(u8, T, Vec<u8>)",
+const COUNTERPARTS: [&str; 26] = [
+    "(i32, String)", "(u8, T, Vec<u8>)", "Holder<'static>", "Anon<'_>", "Größe", "deeply::nested::module::path::to::a::Type<Vec<Option<Box<[&'d str; 3]>>>>",
     "EntityDto", "Entity", "Model", "Dto", "Other", "wire::Msg", "crate::api::Rec", "Pair<T>", "Wrapper<'a>", "Zed", "Alpha", "Beta",
     // generic arguments of every kind: top-level and nested lifetimes, several of each, const args
     "Pair<&'x str, &'y str>", "Both<'p, 'q>", "Gen<T, U>", "Nested<Vec<&'m T>, &'n [u8], Option<&'k str>>", "Mixed<'a, 'z, T, 3>", "Cow<'c, str>", "::ext::Abs<'e, 'f, 'g>", "Arr<[&'r u8; 2], fn(&'s i32) -> &'s i32>",
 ];
-const FIELD_NAMES: [&str; 10] = ["id", "name", "value", "count", "flag", "data", "extra", "score", "left", "right"];
-const OTHER_NAMES: [&str; 8] = ["ident", "title", "amount", "total", "enabled", "payload", "misc", "points"];
+const FIELD_NAMES: [&str; 14] = ["id", "name", "value", "count", "flag", "data", "extra", "score", "left", "right", "größe", "имя", "名前", "a_rather_long_field_name_that_goes_on_and_on_and_on_for_quite_a_while_0123456789"];
+const OTHER_NAMES: [&str; 11] = ["ident", "title", "amount", "total", "enabled", "payload", "misc", "points", "höhe", "r#type", "another_rather_long_name_on_the_other_side_of_the_mapping_9876543210"];
 const FIELD_TYPES: [&str; 16] = ["i32", "String", "u8", "f32", "bool", "Vec<u8>", "Option<String>", "i64", "u16", "&'static str", "(i32, String)", "[u8; 4]", "Box<dyn Fn(i32) -> i32>", "std::collections::BTreeMap<String, Vec<Option<u8>>>", "fn(&str) -> usize", "crate::inner::Child"];
 const ERR_TYPES: [&str; 3] = ["String", "anyhow::Error", "MyErr"];
 const VARIANT_NAMES: [&str; 8] = ["Ok", "NotFound", "Pending", "Done", "Left", "Right", "Empty", "Full"];
@@ -87,6 +87,11 @@ fn counterparts(rng: &mut Rng, n: usize) -> Vec<String> {
             };
         }
     }
+    let mut k = 0;
+    while v.len() < n {
+        v.push(format!("Many{}", k));
+        k += 1;
+    }
     v.dedup();
     v
 }
@@ -99,7 +104,12 @@ fn pick_distinct<'a>(rng: &mut Rng, pool: &[&'a str], n: usize) -> Vec<&'a str> 
 }
 
 fn expr(rng: &mut Rng) -> &'static str {
-    *rng.pick(&["~.clone()", "@.id + 1", "~ as i64", "{ ~.to_string() }", "Default::default()", "@.name.len() as i32", "~.into()", "{ let x = ~; [x, @.id](0) }", "~?", "(@.left, ~)"])
+    *rng.pick(&[
+        "~.clone()", "@.id + 1", "~ as i64", "{ ~.to_string() }", "Default::default()", "@.name.len() as i32", "~.into()", "{ let x = ~; [x, @.id](0) }", "~?", "(@.left, ~)",
+        // every token form an inline expression can carry
+        "{ b\"bytes\".len() as u8 + ~ }", "1.5e3_f64 * ~ as f64", "0xFFu8 & ~", "{ if @.flag { 'c' } else { '\\n' } }", "r#\"raw \" string\"#.into()", "format!(\"{}-{:?}\", @.id, ~)", "{ match ~ { Some(v) => v, None => 0 } }", "@.items.iter().map(|x| x + 1).collect::<Vec<_>>()",
+        "{ 'l: loop { break 'l ~; } }", "&mut *~", "<_ as Into<i64>>::into(~)", "{ #[allow(unused)] let y = ~; y }",
+    ])
 }
 
 fn default_expr(rng: &mut Rng) -> &'static str {
@@ -297,9 +307,11 @@ pub fn gen_struct(rng: &mut Rng, class: Class) -> Item {
         2 => Shape::Unit,
         _ => Shape::Named,
     };
-    // 1 in 8 items is "big": many counterparts, many members
+    // 1 in 8 items is "big": many counterparts, many members; 1 in 60 is huge
     let big = rng.chance(1, 8);
+    let huge = rng.chance(1, 60);
     let n_cp = match class {
+        _ if huge => rng.range(8, 24),
         _ if big => rng.range(4, 7),
         Class::W2MultiCounterpart => rng.range(2, 4),
         _ => rng.range(1, 3),
@@ -377,7 +389,7 @@ pub fn gen_struct(rng: &mut Rng, class: Class) -> Item {
 
     // flattening
     let flatten = class == Class::W3Flatten || rng.chance(1, 6);
-    let groups: Vec<&str> = if flatten && item.shape == Shape::Named { { let n = rng.range(2, 4); pick_distinct(rng, &["base", "base.inner", "child", "base.inner.deep", "meta"], n) } } else { vec![] };
+    let groups: Vec<&str> = if flatten && item.shape == Shape::Named { { let n = rng.range(2, 4); pick_distinct(rng, &["base", "base.inner", "child", "base.inner.deep", "meta", "a.b.c.d.e", "a.b.c.d.e.f", "a.b"], n) } } else { vec![] };
     if !groups.is_empty() {
         let mut need: Vec<String> = Vec::new();
         for g in &groups {
@@ -435,8 +447,9 @@ pub fn gen_struct(rng: &mut Rng, class: Class) -> Item {
 
     // members
     if item.shape != Shape::Unit {
-        let n = if big { rng.range(7, 10) } else { rng.range(1, 7) };
-        let names = pick_distinct(rng, &FIELD_NAMES, n);
+        let n = if huge { rng.range(33, 70) } else if big { rng.range(7, 10) } else { rng.range(1, 7) };
+        let huge_names: Vec<String> = (0..n).map(|i| format!("f{}", i)).collect();
+        let names: Vec<&str> = if huge { huge_names.iter().map(|s| s.as_str()).collect() } else { pick_distinct(rng, &FIELD_NAMES, n) };
         let named_cp = item.shape == Shape::Named;
         let mut repeat_open = false;
         for (i, name) in names.iter().enumerate() {
